@@ -12,6 +12,7 @@ import numpy as np
 from hypothesis import strategies as st
 
 from ..core import Law
+from .. import gen
 from ..gen import fl
 from ..num import mink, proj_dist
 
@@ -152,6 +153,14 @@ class Spec:
             if far:
                 flat[0, 1, :] = 0.0
                 flat[0, 1, 0] = 1.0
+            P = flat.reshape(tuple(shape) + self.unit)
+        if self.name in ("segment", "hpolygon", "hpoint", "hpointpair") and \
+                0.1 < vals[5] <= 0.6 and cnt >= 1:
+            # an endpoint / vertex exactly on the light cone ((5, 3, 4), Minkowski norm exactly
+            # 0): in-place normalisation has nothing to divide by there and leaves it alone
+            flat = P.reshape((cnt, self.rows, self.n + 1))
+            flat[0, 0, :] = 0.0
+            flat[0, 0, :3] = [5.0, 3.0, 4.0]
             P = flat.reshape(tuple(shape) + self.unit)
         if self.name == "tangent":
             # second row is an arbitrary ambient vector (not a point)
@@ -404,8 +413,14 @@ def run_history(case, ctx):
                 ctx.close("caller's array still represents the same points (%s)" % what,
                           klein_of(arr), klein_of(priv), rtol=0, atol=1e-11)
 
+    LAYOUTS = ["plain", "fortran", "fortran", "noncontiguous", "negstride", "plain"]
+
     def fresh(vals, shape, off=0, keep=True):
         arr = spec.data(vals, shape, off)
+        # (the caller's array may be laid out column-major - a grid built with meshgrid and
+        # .T - or be a strided view; readonly is left out because `kept` arrays are compared
+        # and queries normalise the library's own copy only)
+        arr = gen.flavoured(arr, LAYOUTS[int(abs(vals[2]) * 997) % len(LAYOUTS)])
         if keep:
             kept.append((arr, arr.copy()))
             return arr
@@ -453,6 +468,17 @@ def run_history(case, ctx):
             elif op == "stack":
                 Y = spec.build(fresh(vals, shape, off=3, keep=False))
                 lst = [X, Y] if kk % 2 == 0 else [X, Y, X]
+                if kk % 3 == 2 and spec.name in ("segment", "tangent", "hpolygon", "ppolygon"):
+                    # an integer-typed object first in the list: the float objects after it
+                    # keep their values
+                    Iobj = spec.build(spec.int_data(vals, shape))
+                    Zi = spec.cls([Iobj, X])
+                    ctx.close("stacked after an integer-typed object, X keeps its values",
+                              np.asarray(Zi.proj_data)[1].astype(float),
+                              np.asarray(X.proj_data).astype(float), rtol=max(e.tol, 1e-12),
+                              atol=max(e.tol, 1e-12))
+                    check_object(ctx, spec, Zi, max(e.tol, 1e-9), "stack [int object, X]")
+                    ctx.label("stack-int-first")
                 if spec.name == "hpointpair" or spec.name == "hpoint":
                     Z = spec.cls(lst)
                 else:
@@ -592,7 +618,15 @@ def run_history(case, ctx):
                 snap = snapshot()
                 if labels_mut:
                     read_after_mut = True
-                run_query(ctx, spec, op, X, pool, vals, kk)
+                qop = op
+                if spec.hyperbolic and spec.name != "tangent":
+                    rows = np.asarray(X.proj_data, dtype=float).reshape((-1, n + 1))
+                    if np.any(np.abs(mink(rows, rows)) < 1e-12 * np.sum(rows * rows, axis=-1)):
+                        # origin_to / tangents are defined for interior points only
+                        ctx.label("object-with-ideal-vertex")
+                        if op in ("q_origin_to", "q_tangent"):
+                            qop = "q_distance"
+                run_query(ctx, spec, qop, X, pool, vals, kk)
                 check_unmoved(snap, op)
         for idx_e, e in enumerate(pool):
             check_object(ctx, spec, e.obj, e.tol, "after step %d (%s), pool[%d]" %
@@ -762,6 +796,6 @@ LAWS = [
     Law("object_history_long", history_case(AUX, 30), run_history, nt, quick=100,
         thorough=1500, shards=(2, 8)),
     Law("object_history_controls", history_case(["hpoint", "hpointpair"], 12), run_history,
-        lambda l: "composite" in l, quick=150, thorough=1000, shards=(1, 4)),
+        lambda l: "composite" in l, quick=350, thorough=1200, shards=(2, 4)),
     Law("bounded_exhaustive_histories", None, run_history, nt, exhaustive=exhaustive_histories),
 ]
